@@ -1,3 +1,5 @@
+(** The table below follows the tree WITH the fixes notes/fixes/C20-hcl-{multifile-locals,remain-order,scan-type}.diff:
+    Resource.as #1 #2, registry.lookup #1 and State.EvalOptions #3 no longer range over a map. *)
 (** C20 -- the generated map-range census (gen/Gen_MapRanges.v) against the table of sites that
     Det/OrderModel.v models.  [mr_expr] of a table row names the lemma of Det/OrderIndep.v. *)
 From Coq Require Import String List Bool.
@@ -7,16 +9,12 @@ Local Open Scope string_scope.
 
 Definition modelled_sites : list map_range := [
   MR "cmd/atlas/internal/cmdapi/cmdapi.go" "resetFromEnv" 1 "resetFromEnv_perm" Sens 0 0;
-  MR "schemahcl/context.go" "State.evalReferences" 3 "evalReferences_nodes_perm_partial" Sens 0 0;
+  MR "schemahcl/context.go" "State.evalReferences" 3 "EvalRefs.evalReferences_loop_perm" Sens 0 0;
   MR "schemahcl/context.go" "blockVars" 1 "blockVars_perm" Sens 0 0;
-  MR "schemahcl/context.go" "bodyVars" 1 "bodyVars_perm (consumer: evalReferences)" Sens 1 0;
+  MR "schemahcl/context.go" "bodyVars" 1 "bodyVars_perm; consumer: EvalRefs.value_det" Sens 1 0;
   MR "schemahcl/context.go" "typeRefs" 1 "typeRefs_exists_perm" Sens 1 0;
-  MR "schemahcl/extension.go" "Resource.as" 1 "as_extra_attrs_perm_except / _order_leaks" Sens 0 0;
-  MR "schemahcl/extension.go" "Resource.as" 2 "as_extra_children_perm_except / _order_leaks" Sens 1 0;
   MR "schemahcl/extension.go" "registry.implementers" 1 "implementers_children_perm" Sens 1 0;
-  MR "schemahcl/extension.go" "registry.lookup" 1 "lookup_perm_except / lookup_order_matters" Sens 0 0;
-  MR "schemahcl/schemahcl.go" "State.EvalOptions" 1 "EvalOptions_files_perm_except / _order_matters" Sens 2 1;
-  MR "schemahcl/schemahcl.go" "State.EvalOptions" 3 "EvalOptions_metaBlocks_perm_partial" Sens 2 0;
+  MR "schemahcl/schemahcl.go" "State.EvalOptions" 1 "EvalOptions_files_perm (after fix C20-hcl-multifile-locals)" SortedAfter 1 1;
   MR "schemahcl/schemahcl.go" "State.copyBlock" 1 "copyBlock_attrs_perm" Sens 0 0;
   MR "schemahcl/schemahcl.go" "State.toAttrs" 1 "toAttrs_perm" Sens 1 1;
   MR "sql/internal/specutil/convert.go" "Scan" 1 "Scan_link_perm" Sens 0 0;
